@@ -897,7 +897,11 @@ where
                 let cell_ref = CellRef::from_raw(cell);
                 let size = cell_ref.total_size();
                 destination_offset -= size as usize;
-                self.write_item_to_offset(destination_offset as u64, cell_ref);
+                // A cell that slides by less than its own size overlaps its old position, and
+                // `write_item_to_offset` copies with `copy_from_slice` (non-overlapping copy):
+                // stage the bytes in an owned cell first.
+                let staged = OwnedCell::from_ref(cell_ref);
+                self.write_item_to_offset(destination_offset as u64, staged.as_cell_ref());
             }
             self.slot_array_mut()[i] = destination_offset as u16;
         }
